@@ -163,7 +163,7 @@ func enumSeqs(maxLen int) [][]int {
 func (c05) scripts(c *core.Ctx) []c05script {
 	var all []c05script
 	single, pair := 4, 2
-	nrand := 6000
+	nrand := 40000
 	maxOps, maxStmts := 8, 3
 	if c.Tier == "thorough" {
 		single, nrand, maxOps, maxStmts = 5, 500000, 12, 4
